@@ -14,7 +14,14 @@ def make_data(spec):
     dim = spec["dim"]
     blocks = []
     for ci, size in enumerate(spec["sizes"]):
-        if spec["layout"] == "directions":
+        if spec["layout"] == "categorical":
+            # tie-heavy data: members of a cluster are a prototype with two columns changed
+            proto = rs.randint(0, 5, size=dim) + 7 * ci
+            pts = np.tile(proto, (size, 1)).astype(np.float64)
+            for r in range(size):
+                cols = rs.choice(dim, 2, replace=False)
+                pts[r, cols] = rs.randint(0, 5, size=2) + 7 * ci
+        elif spec["layout"] == "directions":
             center = rs.uniform(0.05, 1.0, size=dim)
             center[ci % dim] += 3.0
             center = center * rs.uniform(1.0, 4.0)
